@@ -98,7 +98,7 @@ def make_body(job):
   kind = job['kind']; sc = job['sc']
   Peer = netm.ThriftPeer if kind == 'serial' else netm.MuxPeer
   def body():
-    e = stacks.setup()
+    e = stacks.setup(symbolic_intervals=(sc == 'ping'))
     if sc == 'connect':
       refuse = choose('connect_refused', 2)
       d = fresh_real('connect_delay', 0, 3)
